@@ -433,20 +433,30 @@ def run_once(seed, K, R, outcomes, line_level=False, split=False):
         sc.close_scenario()
 
 
-def scenario_of(i, rng):
+def scenario_of(i, rng, focus=None):
     K = 1 + i % 2 if i % 5 else 2
     R = (1, 2, 1, 2, 0)[i % 5] if K else 1
     if K == 2 and R == 2 and i % 3:
         R = 1
+    if focus == "requests":          # C13: peer requests (and their answers on the wire) in every execution
+        K, R = (i % 3) % 2 + (1 if i % 3 == 2 else 0), 2 if i % 2 else 1
+        K = min(K, 1) if R == 2 else K
+    elif focus == "callers":         # C14: local callers in every execution
+        K, R = (2 if i % 2 else 1), (0, 1, 1)[i % 3]
     ocs = ["answer", "none", "raise", "wrongtype"]
     outcomes = [ocs[(i + j) % 4] if (i // 2) % 2 else "answer" for j in range(max(R, 1))]
     return {"seed": rng.getrandbits(30), "K": K, "R": R, "outcomes": outcomes, "line_level": i % 4 == 1, "split": i % 3 == 2}
 
 
-def model_check(rep, tier):
+def model_check(rep, tier, focus=None):
     """TLC on Stack.tla: the design, and the vacuity self-test (each deviation must break a named property)"""
     invs = "".join(f"INVARIANT {i}\n" for i in INVARIANTS)
-    for K, R, live in (((2, 1, True), (1, 2, True)) if tier == "quick" else ((2, 1, True), (1, 2, True), (2, 2, False))):
+    configs = ((2, 1, True), (1, 2, True)) if tier == "quick" else ((2, 1, True), (1, 2, True), (2, 2, False))
+    if tier == "quick" and focus == "requests":
+        configs = ((1, 2, True),)
+    elif tier == "quick" and focus == "callers":
+        configs = ((2, 1, True),)
+    for K, R, live in configs:
         cfg = (f"SPECIFICATION Spec\nCONSTANTS K = {K}\n R = {R}\n Deviations = {{}}\n" + invs
                + ("PROPERTY AllAnswered\nPROPERTY AllReturn\nPROPERTY Quiesces\n" if live else "") + "CHECK_DEADLOCK FALSE\n")
         res, _ = tlc.run("Stack", cfg, workers=16, timeout=3000)
@@ -534,14 +544,15 @@ def binding_selftest(rep, runs):
         return
 
 
-def stage(rep, nruns):
+def stage(rep, nruns, focus=None):
     """the whole-stack stage of a check: model checking, scheduled executions with monitors, trace validation"""
-    model_check(rep, rep.tier)
+    nodemod_install()
+    model_check(rep, rep.tier, focus)
     rng = random.Random(rep.seed * 104729 + 77)
     runs = []
     setup_failed = 0
     for i in range(nruns):
-        sc = scenario_of(i, rng)
+        sc = scenario_of(i, rng, focus)
         r = run_once(sc["seed"], sc["K"], sc["R"], sc["outcomes"], sc["line_level"], sc["split"])
         rep.case(("stack", i))
         if r.get("setup_failed"):
